@@ -40,6 +40,7 @@ type live struct {
 	msgL int
 	apxL int
 	tag  byte
+	poff int // offset margin this frame was built / parsed with
 }
 
 type opKind int
@@ -53,6 +54,7 @@ const (
 	kMutate
 	kSetLink
 	kRelease
+	kParseBad
 )
 
 type op struct {
@@ -62,7 +64,7 @@ type op struct {
 }
 
 func (o op) String() string {
-	names := []string{"new", "parse", "clone", "reply", "setapx", "mutate", "setlink", "release"}
+	names := []string{"new", "parse", "clone", "reply", "setapx", "mutate", "setlink", "release", "parsebad"}
 	return fmt.Sprintf("%s(%d,%d)", names[o.kind], o.i, o.arg)
 }
 
@@ -136,7 +138,7 @@ func (c *ctx) checkAll(after op) {
 	for idx, l := range c.lives {
 		w := wireOf(l.f)
 		if !bytes.Equal(w, l.wire) {
-			c.bad("frame-changed-by-"+[]string{"new", "parse", "clone", "reply", "setapx", "mutate", "setlink", "release"}[after.kind],
+			c.bad("frame-changed-by-"+[]string{"new", "parse", "clone", "reply", "setapx", "mutate", "setlink", "release", "parsebad"}[after.kind],
 				fmt.Sprintf("live frame %d no longer has its expected bytes after %s (len %d vs %d, first diff %d)", idx, after, len(w), len(l.wire), firstDiff(w, l.wire)))
 			continue
 		}
@@ -211,7 +213,7 @@ func (c *ctx) apply(o op) (ok bool) {
 		if f.RecvLink() != nil {
 			c.bad("stale-recvlink-new", "new frame exposes a recv link of a previously released frame")
 		}
-		c.lives = append(c.lives, &live{f: f, wire: append([]byte(nil), got...), src: ipA, dst: ipB, mt: mt, swL: 2, msgL: msgL, apxL: apxL, tag: c.tagCtr})
+		c.lives = append(c.lives, &live{f: f, wire: append([]byte(nil), got...), src: ipA, dst: ipB, mt: mt, swL: 2, msgL: msgL, apxL: apxL, tag: c.tagCtr, poff: off})
 		return true
 
 	case kParse:
@@ -230,7 +232,12 @@ func (c *ctx) apply(o op) (ok bool) {
 			}
 			src = c.lives[o.i]
 		}
-		// the way the link reader does it: pooled slice, frame at FrameOffset.
+		// the way the link reader does it: pooled slice, frame at FrameOffset
+		// (encrypted link) or at offset 2 (handshake phase, arg 2).
+		poff := off
+		if o.arg == 2 {
+			poff = 2
+		}
 		ps := c.b.GetPooledSlice(len(src.wire) + off + ovh)
 		if ps == nil {
 			return false
@@ -241,8 +248,8 @@ func (c *ctx) apply(o op) (ok bool) {
 				break
 			}
 		}
-		n := copy(ps[off:], src.wire)
-		f, err := c.b.ParseFrame(ps[off:off+n], ps[:cap(ps)], off)
+		n := copy(ps[poff:], src.wire)
+		f, err := c.b.ParseFrame(ps[poff:poff+n], ps[:cap(ps)], poff)
 		if err != nil {
 			c.bad("parse-failed", fmt.Sprintf("parse of a live frame's bytes failed: %v", err))
 			return false
@@ -251,7 +258,32 @@ func (c *ctx) apply(o op) (ok bool) {
 			c.bad("stale-recvlink-parse", "parsed frame exposes the recv link of a previously released frame")
 			f.SetRecvLink(nil)
 		}
-		c.lives = append(c.lives, &live{f: f, wire: append([]byte(nil), src.wire...), src: src.src, dst: src.dst, mt: src.mt, swL: src.swL, msgL: src.msgL, apxL: src.apxL})
+		c.lives = append(c.lives, &live{f: f, wire: append([]byte(nil), src.wire...), src: src.src, dst: src.dst, mt: src.mt, swL: src.swL, msgL: src.msgL, apxL: src.apxL, poff: poff})
+		return true
+
+	case kParseBad:
+		// a frame from the network that passes the minimum size check but fails
+		// parsing; arg&1: the caller returns its buffer to the pool afterwards
+		// (arg 0: drops it, like the link reader); arg&2: second error path.
+		c.tagCtr += 16
+		sw, msg, apx := pattern(3, c.tagCtr+1), pattern(700, c.tagCtr+2), pattern(10, c.tagCtr+3)
+		wire := expectedWire(frame.RouterHopPing, ipB, ipA, sw, msg, apx)
+		if o.arg&2 == 0 {
+			wire[52], wire[53] = 0x27, 0x00 // message length far beyond the data
+		} else {
+			wire[48] = 0xFF // switch block longer than the frame
+			wire = wire[:200]
+		}
+		ps := c.b.GetPooledSlice(len(wire) + off + ovh)
+		n := copy(ps[off:], wire)
+		f, err := c.b.ParseFrame(ps[off:off+n], ps[:cap(ps)], off)
+		if err == nil {
+			f.ReturnToPool()
+			return true
+		}
+		if o.arg&1 == 1 {
+			c.b.ReturnPooledSlice(ps)
+		}
 		return true
 
 	case kClone:
@@ -260,7 +292,7 @@ func (c *ctx) apply(o op) (ok bool) {
 		}
 		src := c.lives[o.i]
 		cl := src.f.Clone()
-		c.lives = append(c.lives, &live{f: cl, wire: append([]byte(nil), src.wire...), src: src.src, dst: src.dst, mt: src.mt, link: src.link, swL: src.swL, msgL: src.msgL, apxL: src.apxL})
+		c.lives = append(c.lives, &live{f: cl, wire: append([]byte(nil), src.wire...), src: src.src, dst: src.dst, mt: src.mt, link: src.link, swL: src.swL, msgL: src.msgL, apxL: src.apxL, poff: src.poff})
 		return true
 
 	case kReply:
@@ -295,6 +327,7 @@ func (c *ctx) apply(o op) (ok bool) {
 		}
 		l.wire, l.src, l.dst, l.link = append([]byte(nil), got...), nsrc, ndst, nil
 		l.swL, l.msgL, l.apxL = 0, len(msg), 0
+		l.poff = off // a reply is rebuilt with the builder's margins
 		return true
 
 	case kSetApx:
@@ -319,7 +352,7 @@ func (c *ctx) apply(o op) (ok bool) {
 		l.wire = append(append([]byte(nil), base...), apx...)
 		l.apxL = len(apx)
 		// the link margins must still be available, or the link writer drops the frame.
-		if _, err := l.f.FrameDataWithMargins(off, ovh); err != nil {
+		if _, err := l.f.FrameDataWithMargins(l.poff, ovh); err != nil {
 			c.bad("appendix-consumed-margins", fmt.Sprintf("after SetAppendixData(%d) the frame lost its link margins: %v", o.arg, err))
 		}
 		return true
@@ -407,7 +440,10 @@ func TestC17(t *testing.T) {
 	for _, s := range sizes {
 		alphabet = append(alphabet, op{kNew, 0, s})
 	}
-	alphabet = append(alphabet, op{kParse, 0, 1})
+	alphabet = append(alphabet, op{kParse, 0, 1}, op{kParseBad, 0, 0}, op{kParseBad, 0, 1}, op{kParseBad, 0, 2})
+	for i := 0; i < 3; i++ {
+		alphabet = append(alphabet, op{kParse, i, 2})
+	}
 	for i := 0; i < 3; i++ {
 		alphabet = append(alphabet, op{kParse, i, 0}, op{kClone, i, 0}, op{kReply, i, 0}, op{kReply, i, 1}, op{kMutate, i, 0}, op{kSetLink, i, 0}, op{kSetLink, i, 1}, op{kRelease, i, 0})
 		for _, a := range apxLens {
@@ -461,7 +497,7 @@ func TestC17(t *testing.T) {
 			names[i] = alphabet[oi].String()
 		}
 		if pan {
-			rep.Violate(fmt.Sprintf("panic-in-%s", []string{"new", "parse", "clone", "reply", "setapx", "mutate", "setlink", "release"}[last.kind]), fmt.Sprintf("panic %v at %s in sequence %v", pv, last, names), names)
+			rep.Violate(fmt.Sprintf("panic-in-%s", []string{"new", "parse", "clone", "reply", "setapx", "mutate", "setlink", "release", "parsebad"}[last.kind]), fmt.Sprintf("panic %v at %s in sequence %v", pv, last, names), names)
 		}
 		for _, v := range c.viol {
 			rep.Violate(v.Key, v.Detail+fmt.Sprintf(" — sequence %v", names), names)
@@ -501,6 +537,7 @@ func TestC17(t *testing.T) {
 				if lc >= 3 {
 					continue
 				}
+			case kParseBad:
 			case kParse, kClone:
 				if (o.i >= lc && !(o.kind == kParse && o.arg == 1)) || lc >= 3 {
 					continue
